@@ -305,13 +305,49 @@ def _const_strings(s) -> list[str]:
     return [x[1] for t, _, _ in s.all_terms() for x in subterms(t) if is_const(x) and isinstance(x[1], str)]
 
 
+def _closure_strings(cx: Cx, roots) -> list[str]:
+    """Every string literal in the functions reachable from ``roots`` by name (package functions, methods and the
+    ``__str__`` / ``__format__`` / ``__repr__`` of package classes they instantiate) and in the module-level constants
+    those functions mention: where a writer keeps its templates is its own business."""
+    import ast as _ast
+
+    seen, todo, out = set(), list(roots), []
+    by_name: dict = {}
+    for g in cx.model.functions.values():
+        by_name.setdefault(g.name, []).append(g)
+    cls_by_name = {ci.name: ci for ci in cx.model.classes.values()}
+    while todo:
+        g = todo.pop()
+        if g.qualname in seen or len(seen) > 40:
+            continue
+        seen.add(g.qualname)
+        for n in _ast.walk(g.node):
+            if isinstance(n, _ast.Constant) and isinstance(n.value, str):
+                out.append(n.value)
+            elif isinstance(n, _ast.Name) and n.id in g.module.constants:
+                for m in _ast.walk(g.module.constants[n.id]):
+                    if isinstance(m, _ast.Constant) and isinstance(m.value, str):
+                        out.append(m.value)
+            elif isinstance(n, _ast.Call):
+                nm = n.func.attr if isinstance(n.func, _ast.Attribute) else n.func.id if isinstance(n.func, _ast.Name) else None
+                if nm in cls_by_name:
+                    for special in ("__str__", "__format__", "__repr__"):
+                        m_ = cls_by_name[nm].methods.get(special)
+                        if m_ is not None:
+                            todo.append(m_)
+                for h in by_name.get(nm, ()):
+                    if h.module is g.module and len(by_name.get(nm, ())) <= 2:
+                        todo.append(h)
+    return out
+
+
 @obligation("C14-D3", "SHACL vocabulary: the sh: terms of the writer's templates equal those of from_shacl's query; the canonical line is always written, synonym lines iff include_synonyms, each with the record's uri_prefix and pattern", floor=3)
 def d3(cx: Cx, ob: Ob) -> None:
     reader = cx.fn(f"{CONV}.from_shacl", ob.id)
     rterms = _sh_terms(_const_strings(cx.summary(reader, ob.id)))
     line_fn = cx.fn(f"{API}._get_shacl_line", ob.id)
     w = cx.fn(f"{API}.write_shacl", ob.id)
-    wterms = _sh_terms(_const_strings(cx.summary(line_fn, ob.id)) + _const_strings(cx.summary(w, ob.id)))
+    wterms = _sh_terms(_const_strings(cx.summary(line_fn, ob.id)) + _const_strings(cx.summary(w, ob.id)) + _closure_strings(cx, [line_fn, w]))
     ob.site(f"{reader.where} {reader.qualname}", f"reader terms {sorted(rterms)}")
     ob.site(f"{line_fn.where} {line_fn.qualname}", f"writer terms {sorted(wterms)}")
     for t in sorted(wterms - rterms):
@@ -423,6 +459,10 @@ def d3(cx: Cx, ob: Ob) -> None:
                     unrecognised = True
             ob.site(f"{where(w, ev.line)} {w.qualname}", "canonical + synonym lines (comprehension)")
             continue
+        unrecognised = True
+    if not seen_calls:
+        # the lines are not produced by calls of _get_shacl_line in write_shacl itself (a helper builds a list of
+        # declaration objects, ...): which records and names get a line is then not read off here
         unrecognised = True
     canon, syn = "canon" in kinds, "syn" in kinds
     if canon and not (None in kinds["canon"] or {True, False} <= kinds["canon"]):
